@@ -449,7 +449,13 @@ pub fn execute_once<W: World>(
     if let Err(p) = r {
         let msg = take_last_panic();
         let injected = p.downcast_ref::<InjectedPanic>().is_some();
-        let class = if injected { "harness-escaped-injected-panic" } else { "escaped-panic" };
+        let class = if injected {
+            "harness-escaped-injected-panic"
+        } else if msg.starts_with("palsim: no-termination") {
+            "no-termination"
+        } else {
+            "escaped-panic"
+        };
         ctx.fail(class, &format!("{class}"), msg);
     }
     RunOutcome {
